@@ -371,23 +371,81 @@ fn check_outbound_inner(rep: &mut Report, pos: usize, len: usize, limit: usize, 
         }
     }
     assert_eq!(p, pos);
-    // the message under test: a plain padded string, or (every other case) a message whose tail is made of
-    // other kinds of values, so that something else than a string straddles the buffer end / the limit
-    let varied = if (pos + len) % 2 == 1 { filler_varied(len) } else { None };
+    // the message under test: a plain padded string, or a message whose tail is made of other kinds of values
+    // (so that something else than a string straddles the buffer end / the limit), or one that is mostly a
+    // byte array (two to four characters per element: any estimate of its size is far from its real size);
+    // submitted with enqueue_call or - every third case - with send_call behind whatever is already queued
+    let via_send = (pos + 2 * len) % 3 == 0;
+    let kind = (pos + len) % 4;
+    let varied = if kind == 1 { filler_varied(len) } else { None };
+    let bytes_msg = if kind == 3 { filler_bytes(len) } else { None };
+    macro_rules! submit {
+        ($f:expr, $counter:expr) => {{
+            let f = $f;
+            if let Some(c) = $counter {
+                rep.count(c);
+            }
+            let reference = serde_json::to_vec(&f).unwrap();
+            let writes_before = wire.borrow().writes.len();
+            let res = if via_send {
+                rep.count("outbound_messages_submitted_with_send_call");
+                vnet::block_on(conn.send_call(&f), 4).unwrap()
+            } else {
+                conn.enqueue_call(&f)
+            };
+            if res.is_err() && wire.borrow().writes.len() != writes_before {
+                let w = wire.borrow();
+                rep.violation(
+                    "C17/refused-message-wrote-to-the-transport",
+                    format!("a {} of {len} bytes behind {pos} queued bytes was refused with {res:?} and made {} write call(s) of {:?} bytes", if via_send { "send_call" } else { "enqueue_call" }, w.writes.len() - writes_before, w.writes[writes_before..].iter().map(|x| x.len()).collect::<Vec<_>>()),
+                    json!({"monitor": "c17", "dir": "out", "pos": pos, "len": len, "limit": limit, "build": label}),
+                );
+                return;
+            }
+            if via_send && res.is_ok() {
+                // everything queued went out with it, in one write
+                let w = wire.borrow();
+                if w.writes.len() != writes_before + 1 {
+                    rep.violation("C17/accepted-send-did-not-issue-one-write", format!("{} write calls", w.writes.len() - writes_before), json!({"monitor": "c17", "dir": "out", "pos": pos, "len": len, "limit": limit, "build": label}));
+                    return;
+                }
+            }
+            return finish_outbound(rep, conn, wire, expect, res, reference, pos, len, limit, step, label, &|c: &mut Connection<VSocket>| if via_send { vnet::block_on(c.send_call(&f), 4).unwrap() } else { c.enqueue_call(&f) });
+        }};
+    }
     if let Some(f) = varied {
-        rep.count("outbound_messages_with_varied_tail");
-        let res = conn.enqueue_call(&f);
-        let reference = serde_json::to_vec(&f).unwrap();
-        return finish_outbound(rep, conn, wire, expect, res, reference, pos, len, limit, step, label, &|c: &mut Connection<VSocket>| c.enqueue_call(&f));
+        submit!(f, Some("outbound_messages_with_varied_tail"));
     }
-    let f = filler(len);
-    #[cfg(zlink_verif)]
-    if std::env::var_os("ZV_DEBUG").is_some() {
-        eprintln!("before final enqueue: {:?}", conn.write().verif_state());
+    if let Some(v) = bytes_msg {
+        submit!(zlink_core::Call::new(&v), Some("outbound_messages_that_are_mostly_a_byte_array"));
     }
-    let res = conn.enqueue_call(&f);
-    let reference = serde_json::to_vec(&f).unwrap();
-    finish_outbound(rep, conn, wire, expect, res, reference, pos, len, limit, step, label, &|c: &mut Connection<VSocket>| c.enqueue_call(&f))
+    submit!(filler(len), None::<&str>);
+}
+
+/// A call of exactly `len` bytes most of which is a byte array (`serialize_bytes`: `[7,42,255,...]`).
+fn filler_bytes(len: usize) -> Option<crate::vals::V> {
+    use crate::vals::V;
+    let mk = |pad: usize, n: usize| {
+        // element values cycle through one-, two- and three-digit numbers
+        let bytes: Vec<u8> = (0..n).map(|i| [7u8, 42, 255, 0, 9, 10, 99, 100][i % 8]).collect();
+        V::Struct("B", vec![("method", V::Str("b".into())), ("parameters", V::Struct("P", vec![("pad", V::Str("z".repeat(pad))), ("b", V::Bytes(bytes))]))])
+    };
+    let enc = |v: &V| serde_json::to_vec(&zlink_core::Call::new(v)).unwrap().len();
+    let base = enc(&mk(0, 0));
+    if len < base + 64 {
+        return None;
+    }
+    // about 90 % of the frame is the array; the string pad makes the length exact
+    let mut n = (len - base) * 9 / 10 / 3;
+    loop {
+        let l = enc(&mk(0, n));
+        if l <= len {
+            let v = mk(len - l, n);
+            debug_assert_eq!(enc(&v), len);
+            return Some(v);
+        }
+        n -= 1 + (l - len) / 4;
+    }
 }
 
 #[allow(clippy::too_many_arguments)]
